@@ -530,7 +530,7 @@ def _other_grids(g):
     )
 
 
-POINTS_KINDS = ("AffineTransform", "EulerRotation", "DDF", "SVF")
+POINTS_KINDS = ("AffineTransform", "DDF")  # one linear (composite) and one dense model
 AXES_NAMES = ("grid", "cube", "cube_corners", "world")
 
 
